@@ -298,6 +298,12 @@ def case(ctx, x):
                     and all(p.startswith("conforming instance") for p in probs):
                 ctx.known("recovery-not-string-aware")
                 continue
+            if fault.get("complex") and "target" in fault and "complex-nonhead-part-errors-dropped" in ctx.open_sigs \
+                    and all(p.startswith("read of the faulted file ended") or p.startswith("p21read exit status 0") for p in probs):
+                inst = pop["instances"][fault["target"][0]]
+                head = min(p["ent"].lower() for p in inst["parts"])
+                if inst["parts"][fault["target"][1]]["ent"].lower() != head and ctx.known("complex-nonhead-part-errors-dropped"):
+                    continue
             if ctx.known(sig) or ctx.known(fault["cls"]):
                 continue
             raise Found({"what": "[%s] " % fault["cls"] + "; ".join(probs[:3]), "sig": sig, "pop": pop, "text": text,
